@@ -305,7 +305,7 @@ func symbols(c string, sc *cScen, rng *rand.Rand, pad string, cut1 int) [][]byte
 	var syms [][]byte
 	for i := range sc.Frames {
 		fr := &sc.Frames[i]
-		b := frameBytes(c, i+1, fr, rng, pad)
+		b := exactOrPadded(pad, rng.Int63(), func(r *rand.Rand, pd string) []byte { return frameBytes(c, i+1, fr, r, pd) })
 		nb := fr.Nb
 		if nb > 0 {
 			if len(b) < nb {
@@ -498,6 +498,7 @@ func (r *connRunner) runConn(c string, sc *cScen, pad string, seed int64, cut1 i
 		conn.Close()
 	} else {
 		conn.Close()
+		r.log.Ev("CX", tr.M{"c": c}) // the close has completed: from here on the socket refuses what the service writes
 	}
 }
 
@@ -552,7 +553,7 @@ func cmdConn(args []string) int {
 	defer f.Close()
 	scn := bufio.NewScanner(f)
 	scn.Buffer(make([]byte, 1<<20), 1<<26)
-	pads := []int{0, 0, 0, 0, 7, 100, 4000, 4095, 4096, 4097, 5000, 70000}
+	pads := []int{0, 0, 0, 0, 7, 100, 4000, 4095, 4096, 4097, 5000, 70000, -4095, -4096, -4097, -8192, -65536} // negative: exact frame length incl. NUL
 	nscen := 0
 	var dialed int64
 	for scn.Scan() {
@@ -595,7 +596,13 @@ func cmdConn(args []string) int {
 		}
 		for _, cut1 := range cutsToRun {
 			log.Raw([]byte(`{"ev":"Reset","scen":` + string(raw) + `}`))
-			pad := strings.Repeat("x", pads[r.rng.Intn(len(pads))])
+			pn := pads[r.rng.Intn(len(pads))]
+			pad := ""
+			if pn > 0 {
+				pad = strings.Repeat("x", pn)
+			} else if pn < 0 {
+				pad = fmt.Sprintf("=%d", -pn)
+			}
 			if cut1 > 0 {
 				pad = ""
 			}
